@@ -2,6 +2,7 @@ package c13
 
 import (
 	"fmt"
+	"github.com/openconfig/goyang/pkg/yangentry"
 	"os"
 	"path/filepath"
 	"strings"
@@ -42,6 +43,14 @@ func scaleCases(tier string) []scalekit.Case {
 	// a submodule of its own revision, importers that pin the old one, the new one, or nothing
 	for v := 0; v < 2*len(revDefOrders(tier)); v++ {
 		out = append(out, scalekit.Case{Shape: "revision-definitions", N: 1, V: v})
+	}
+	// the bare name through yangentry.Parse: n revisions of one module in files, each with a revision
+	// history of one to three statements written newest first or oldest first (variant: which, and
+	// the order of the files)
+	for n := 2; n <= 4; n++ {
+		for v := 0; v < 12; v++ {
+			out = append(out, scalekit.Case{Shape: "bare-name-through-yangentry", N: n, V: v})
+		}
 	}
 	for k := 2; k <= maxK; k++ {
 		i := 0
@@ -223,7 +232,71 @@ func checkRevisionDefinitions(cs scalekit.Case) scalekit.Verdict {
 	return scalekit.OK()
 }
 
+// bare-name-through-yangentry: the map yangentry.Parse returns files, under the module's name, the tree
+// of the revision that is latest by its newest revision statement, wherever in the history that
+// statement stands and in whichever order the files are given.
+func checkYangentryBareName(cs scalekit.Case) scalekit.Verdict {
+	dir, err := os.MkdirTemp("", "c13ye")
+	if err != nil {
+		panic(err)
+	}
+	defer os.RemoveAll(dir)
+	oldestFirst := cs.V%2 == 1
+	var paths []string
+	for i := 0; i < cs.N; i++ {
+		// module i: its newest statement is 202<i>-06-01; older ones reach back before every other module's
+		dates := []string{fmt.Sprintf("202%d-06-01", i)}
+		for k := 0; k < i%3; k++ {
+			dates = append(dates, fmt.Sprintf("201%d-0%d-01", k, i+1))
+		}
+		if oldestFirst {
+			for a, b := 0, len(dates)-1; a < b; a, b = a+1, b-1 {
+				dates[a], dates[b] = dates[b], dates[a]
+			}
+		}
+		var sb strings.Builder
+		sb.WriteString(`module acme { namespace "urn:acme"; prefix acme;`)
+		for _, d := range dates {
+			fmt.Fprintf(&sb, " revision %s;", d)
+		}
+		fmt.Fprintf(&sb, " leaf marker%d { type string; } }", i)
+		fn := filepath.Join(dir, fmt.Sprintf("acme@202%d-06-01.yang", i))
+		if err := os.WriteFile(fn, []byte(sb.String()), 0o644); err != nil {
+			panic(err)
+		}
+		paths = append(paths, fn)
+	}
+	// the order of the files: rotated by v/2
+	rot := (cs.V / 2) % cs.N
+	paths = append(paths[rot:], paths[:rot]...)
+	if (cs.V/2)/cs.N%2 == 1 {
+		for a, b := 0, len(paths)-1; a < b; a, b = a+1, b-1 {
+			paths[a], paths[b] = paths[b], paths[a]
+		}
+	}
+	entries, errs := yangentry.Parse(paths, nil)
+	if len(errs) > 0 {
+		return scalekit.Bad("spurious-errors", "no errors", dump.Errors(errs))
+	}
+	e := entries["acme"]
+	want := fmt.Sprintf("marker%d", cs.N-1)
+	if e == nil || e.Dir[want] == nil || len(e.Dir) != 1 {
+		got := "nil"
+		if e != nil {
+			got = fmt.Sprint(len(e.Dir), " children")
+			for k := range e.Dir {
+				got += " " + k
+			}
+		}
+		return scalekit.Bad("bare-name-is-not-the-latest-revision", "entries[acme] is the tree of acme@"+fmt.Sprintf("202%d-06-01", cs.N-1)+" (leaf "+want+")", got)
+	}
+	return scalekit.OK()
+}
+
 func checkScale(cs scalekit.Case) scalekit.Verdict {
+	if cs.Shape == "bare-name-through-yangentry" {
+		return checkYangentryBareName(cs)
+	}
 	if cs.Shape == "revision-definitions" {
 		return checkRevisionDefinitions(cs)
 	}
